@@ -23,38 +23,38 @@ func registerPW() {
 	}
 	pwSim := []string{"SimWriter / SimReader / SimPipe (chunking, write faults, bounded pipe)", "task scheduler with schedule tape (concurrent Pack tasks, Chdir task, Pack||Unpack over the pipe)", "tree builder (the model tree is the generated node list)", "reference ignore matcher (model.Excluded)", "expected entry list / round-trip comparison"}
 	plans["C02"] = &Plan{ID: "C02", Level: "exploration",
-		Legs: []Leg{{World: "pw", Profile: "roundtrip", Quick: 5000, Weight: 1}},
-		Rule: "each evaluation = one generated tree (<=25 nodes: files incl. empty/600 B/70 KiB, directories incl. empty, in-tree relative links incl. dangling and chained, fifos, rule file, odd modes, fractional mtimes, long/non-ASCII/odd names) packed by the real Pack and unpacked by the real Unpack into an empty directory, sequentially through a chunking SimReader or pipelined as two tasks over a bounded SimPipe whose interleaving comes from the schedule tape; the result tree is compared with the node list (type, content, mode, mtime rounded to the second, equivalent link target). distinct = scenario hash; non-trivial = has a link, a rule file, or pipelining.",
+		Legs:   []Leg{{World: "pw", Profile: "roundtrip", Quick: 5000, Weight: 1}},
+		Rule:   "each evaluation = one generated tree (<=25 nodes: files incl. empty/600 B/70 KiB, directories incl. empty, in-tree relative links incl. dangling and chained, fifos, rule file, odd modes, fractional mtimes, long/non-ASCII/odd names) packed by the real Pack and unpacked by the real Unpack into an empty directory, sequentially through a chunking SimReader or pipelined as two tasks over a bounded SimPipe whose interleaving comes from the schedule tape; the result tree is compared with the node list (type, content, mode, mtime rounded to the second, equivalent link target). distinct = scenario hash; non-trivial = has a link, a rule file, or pipelining.",
 		Assume: []string{"special files are expected to be skipped", "directories selected by ignore rules are not compared (the statement fixes files)", "unprivileged runs use only modes readable by the uid"},
 		Real:   realCommon, Sim: pwSim}
 	plans["C03"] = &Plan{ID: "C03", Level: "exploration",
-		Legs: []Leg{{World: "pw", Profile: "ignore", Quick: 5000, Weight: 2}, {World: "bw", Profile: "rules", Quick: 2500, Weight: 1}},
-		Rule: "each evaluation = one generated tree + rule file (<=8 rules from the documented grammar, patterns built from the tree's own segment names) packed with ignore processing on or off, optionally after history operations in the same process (rule files starting with a negation, other options) and repeated; shipped file/link names are compared both ways with the independent segment-wise matcher; the bundle side is exercised by the BW legs. distinct = scenario hash; non-trivial = has rules/links/history.",
+		Legs:   []Leg{{World: "pw", Profile: "ignore", Quick: 5000, Weight: 2}, {World: "bw", Profile: "rules", Quick: 2500, Weight: 1}},
+		Rule:   "each evaluation = one generated tree + rule file (<=8 rules from the documented grammar, patterns built from the tree's own segment names) packed with ignore processing on or off, optionally after history operations in the same process (rule files starting with a negation, other options) and repeated; shipped file/link names are compared both ways with the independent segment-wise matcher; the bundle side is exercised by the BW legs. distinct = scenario hash; non-trivial = has rules/links/history.",
 		Assume: []string{"strict two-way oracle on files and links, not on directory entries", "rule grammar avoids the three '**' corners the statement does not define"},
 		Real:   realCommon, Sim: pwSim}
 	plans["C05"] = &Plan{ID: "C05", Level: "exploration",
-		Legs: []Leg{{World: "pw", Profile: "links", Quick: 6000, Weight: 1}},
-		Rule: "each evaluation = one tree with in-tree, absolute, out-of-tree (file, directory, dangling, chained, sibling-prefix, absolute) links and links inside out-of-tree directories pointing back, packed with generated options; oracles: no OUT-token content unless reachable by dereferencing; no link entry that leaves the archive root at its own position unless allow-listed; out-of-tree link without dereference => illegal-slug error and no Meta; all-relative trees => Unpack accepts the slug.",
+		Legs:   []Leg{{World: "pw", Profile: "links", Quick: 6000, Weight: 1}},
+		Rule:   "each evaluation = one tree with in-tree, absolute, out-of-tree (file, directory, dangling, chained, sibling-prefix, absolute) links and links inside out-of-tree directories pointing back, packed with generated options; oracles: no OUT-token content unless reachable by dereferencing; no link entry that leaves the archive root at its own position unless allow-listed; out-of-tree link without dereference => illegal-slug error and no Meta; all-relative trees => Unpack accepts the slug.",
 		Assume: []string{"in/out-of-tree is decided lexically, as the statement's examples do"},
 		Real:   realCommon, Sim: pwSim}
 	plans["C16"] = &Plan{ID: "C16", Level: "exploration",
-		Legs: []Leg{{World: "pw", Profile: "spell", Quick: 5000, Weight: 1}},
-		Rule: "each evaluation = one tree packed 2-5 times with the same options under different spellings of the source (absolute, trailing slash, dot, dot-dot detour, relative, through a symlink with absolute or relative target), working directories, preceding histories, and (one third) as concurrent Pack tasks plus a Chdir task interleaved at writer yields by the schedule tape; decoded entry lists must be identical and, for trees without out-of-tree links, equal to the model's depth-first list. distinct = scenario hash.",
+		Legs:   []Leg{{World: "pw", Profile: "spell", Quick: 5000, Weight: 1}},
+		Rule:   "each evaluation = one tree packed 2-5 times with the same options under different spellings of the source (absolute, trailing slash, dot, dot-dot detour, relative, through a symlink with absolute or relative target), working directories, preceding histories, and (one third) as concurrent Pack tasks plus a Chdir task interleaved at writer yields by the schedule tape; decoded entry lists must be identical and, for trees without out-of-tree links, equal to the model's depth-first list. distinct = scenario hash.",
 		Assume: []string{"interleaving granularity = writer calls (gzip buffers; small trees give few yields)", "under concurrency the source is spelled absolutely (a relative spelling would denote a different directory after Chdir)"},
 		Real:   realCommon, Sim: pwSim}
 	plans["C20"] = &Plan{ID: "C20", Level: "exploration",
-		Legs: []Leg{{World: "pw", Profile: "meta", Quick: 4000, Weight: 2}, {World: "pw", Profile: "links", Quick: 2000, Weight: 1}, {World: "pw", Profile: "ignore", Quick: 2000, Weight: 1}, {World: "pw", Profile: "mutate", Quick: 1200, Weight: 1}},
-		Rule: "each evaluation = one successful Pack (any tree/options of the Pack world, incl. dereferenced files and directories, ignored subtrees, empty files, concurrent packs); Meta.Files must equal the decoded entry names in order and Meta.Size the stored content bytes and the sum of header sizes. distinct = scenario hash.",
+		Legs:   []Leg{{World: "pw", Profile: "meta", Quick: 4000, Weight: 2}, {World: "pw", Profile: "links", Quick: 2000, Weight: 1}, {World: "pw", Profile: "ignore", Quick: 2000, Weight: 1}, {World: "pw", Profile: "mutate", Quick: 1200, Weight: 1}, {World: "pw", Profile: "sweep", Quick: 8, Weight: 1}},
+		Rule:   "each evaluation = one successful Pack (any tree/options of the Pack world, incl. dereferenced files and directories, ignored subtrees, empty files, concurrent packs); Meta.Files must equal the decoded entry names in order and Meta.Size the stored content bytes and the sum of header sizes. distinct = scenario hash.",
 		Assume: []string{"thin simulation dimension: evaluated on the simulator's runs, incl. concurrent ones"},
 		Real:   realCommon, Sim: pwSim}
 	plans["C12"] = &Plan{ID: "C12", Level: "fault_enumeration",
-		Legs: append([]Leg{{World: "uw", Profile: "sweep", Quick: 16, Weight: 2}, {World: "pw", Profile: "sweep", Quick: 30, Weight: 2}}, bwC12Legs()...),
-		Rule: "fault enumeration: for each seeded base scenario the single-fault space is swept, not sampled - Unpack: every compressed-byte offset x {err, trunc, uneof, err+data} (+ transient err), oracle: nil => dst equals the reference interpretation of the whole archive, policy rejections are illegal-slug errors; Pack: every writer call index 1-12 x {err, partial+err} x {sticky, transient} and strided byte offsets, oracle: device error => Pack error and nil Meta; Build: every peer-call index x its fault kinds, oracles: error diagnostic returned, builder refuses afterwards (porcupine history check), no bundle from a failed build, target not openable at any callback boundary or with any torn manifest prefix, finder diagnostics delivered once with severity/text intact and file names rewritten. evaluations = faulted runs; distinct = scenario hash; non-trivial = a fault actually fired.",
+		Legs:   append([]Leg{{World: "uw", Profile: "sweep", Quick: 16, Weight: 2}, {World: "pw", Profile: "sweep", Quick: 30, Weight: 2}}, bwC12Legs()...),
+		Rule:   "fault enumeration: for each seeded base scenario the single-fault space is swept, not sampled - Unpack: every compressed-byte offset x {err, trunc, uneof, err+data} (+ transient err), oracle: nil => dst equals the reference interpretation of the whole archive, policy rejections are illegal-slug errors; Pack: every writer call index 1-12 x {err, partial+err} x {sticky, transient} and strided byte offsets, oracle: device error => Pack error and nil Meta; Build: every peer-call index x its fault kinds, oracles: error diagnostic returned, builder refuses afterwards (porcupine history check), no bundle from a failed build, target not openable at any callback boundary or with any torn manifest prefix, finder diagnostics delivered once with severity/text intact and file names rewritten. evaluations = faulted runs; distinct = scenario hash; non-trivial = a fault actually fired.",
 		Assume: []string{"crash model: process death at a callback boundary with all completed system calls durable (go-slug never syncs and claims nothing about page-cache loss)", "syscall-level faults (EIO on open/rename) are not injected: no property quantifies over them", "a short write with nil error is not a fault kind (compress/flate discards the count)"},
 		Real:   realCommon, Sim: append(pwSim, "SimReader fault plans", "fault-injecting fetcher/registry/finder peers", "porcupine poison-history model")}
 	plans["C19"] = &Plan{ID: "C19", Level: "exploration",
-		Legs: append([]Leg{{World: "uw", Profile: "rawmut", Quick: 8000, Weight: 3}, {World: "uw", Profile: "mixed", Quick: 4000, Weight: 1}, {World: "pw", Profile: "hostile", Quick: 3000, Weight: 3}, {World: "pw", Profile: "mutate", Quick: 1200, Weight: 1}}, bwC19Legs()...),
-		Rule: "each evaluation = one hostile scenario in a watched worker process: Unpack of tar streams with mutated header bytes (checksums repaired), truncations, garbage tails and second gzip members; Pack of trees with link cycles, directory loops reached by dereference, links to fifos, degenerate rule files; bundle opening of hostile manifests and parsing of hostile peer-supplied address strings. Oracles: no recovered panic, process does not die inside an operation, Read/Write/peer-call counts within the stated step bound, operation returns within 10 s of real time (confirmed by a solo re-run). distinct = scenario hash.",
+		Legs:   append([]Leg{{World: "uw", Profile: "rawmut", Quick: 8000, Weight: 3}, {World: "uw", Profile: "mixed", Quick: 4000, Weight: 1}, {World: "pw", Profile: "hostile", Quick: 3000, Weight: 3}, {World: "pw", Profile: "mutate", Quick: 1200, Weight: 1}}, bwC19Legs()...),
+		Rule:   "each evaluation = one hostile scenario in a watched worker process: Unpack of tar streams with mutated header bytes (checksums repaired), truncations, garbage tails and second gzip members; Pack of trees with link cycles, directory loops reached by dereference, links to fifos, degenerate rule files; bundle opening of hostile manifests and parsing of hostile peer-supplied address strings. Oracles: no recovered panic, process does not die inside an operation, Read/Write/peer-call counts within the stated step bound, operation returns within 10 s of real time (confirmed by a solo re-run). distinct = scenario hash.",
 		Assume: []string{"real-time budget only for blocking open(2) and runaway recursion, which cannot be counted in simulator steps"},
 		Real:   realCommon, Sim: pwSim}
 }
